@@ -15,7 +15,8 @@
    `logical` computes what tobytes('C') must emit. *)
 From Coq Require Import String Ascii.
 From Coq Require Import ZArith List Bool Lia.
-From FV Require Import Common.ListX Common.Chunk.
+From FV Require Import Common.ListX Common.Chunk Common.SerTags.
+From FV Require Export gen.Gen_serialization gen.Gen_c16_checkpoint gen.Gen_c16_sqlite.
 Import ListNotations.
 Local Open Scope Z_scope.
 
@@ -161,12 +162,8 @@ Definition omap {A B} (f : A -> option B) : list A -> option (list B) :=
               | x :: r => match f x, go r with Some y, Some ys => Some (y :: ys) | _, _ => None end
               end.
 
-(* _MsgpackExtType *)
-Definition EXT_ndarray : Z := 1.
-Definition EXT_native_complex : Z := 2.
-Definition EXT_npscalar : Z := 3.
-Definition EXT_bytes_ndarray : Z := 4.
-
+(* _MsgpackExtType codes, the dispatch tables, the steps of _ndarray_to_bytes and the tuple
+   layouts are TRANSLATED: gen/Gen_serialization.v (re-generated on every check) *)
 Definition shape_wire (shape : list nat) : wire := WArr (map (fun n => WInt (Z.of_nat n)) shape).
 
 (* arr.astype(arr.dtype.newbyteorder('=')): new native C-contiguous array, same values *)
@@ -176,6 +173,8 @@ Definition is_native (a : ndarr) : bool := match a_order a with Native => true |
 (* arr.tobytes('C') *)
 Definition tobytes_C (a : ndarr) : list Z := flat_map (elem_bytes (a_dt a) (a_order a)) (logical a).
 
+(* closed forms of what the interpreted tables below compute (Proofs: ndarray_to_bytes_in_arr /
+   _other); the correspondence and the theorems use the interpreted `encode` *)
 (* _ndarray_to_bytes on a supported dtype (hasobject / isalignedstruct are false) *)
 Definition ndarray_to_bytes (a : ndarr) : wire :=
   let a := if is_native a then a else astype_native a in
@@ -188,17 +187,88 @@ Definition other_to_bytes (o : oarr) : option wire :=
 
 Definition obj_bytes (e : objelem) : option wire := match e with OBytes b => Some (WBin b) | ONotBytes => None end.
 
-(* _bytes_ndarray_to_bytes: all(isinstance(v, bytes)) over x.flatten() *)
-Definition bytes_ndarray_to_bytes (shape : list nat) (elems : list objelem) : option wire :=
-  match omap obj_bytes elems with
-  | Some flat => Some (WArr [shape_wire shape; WArr flat])
+Definition int_packable (z : Z) : bool := (- 2 ^ 63 <=? z) && (z <? 2 ^ 64).
+
+(* ---- interpretation of the translated tables ---- *)
+(* what _ndarray_to_bytes can be handed *)
+Inductive arrin := InArr (a : ndarr) | InJax (a : ndarr) | InOther (o : oarr) | InObj.
+
+Definition ntb_apply (st : ntb_step) (x : arrin) : option arrin :=
+  match st, x with
+  | StepJaxToNumpy, InJax a => Some (InArr (astype_native a))       (* np.array(arr): native, C *)
+  | StepJaxToNumpy, _ => Some x
+  | StepReject h al, InOther o => if (h && o_hasobject o) || (al && o_alignedstruct o) then None else Some x
+  | StepReject h _, InObj => if h then None else Some x
+  | StepReject _ _, _ => Some x                                      (* numeric / bool dtypes have neither flag *)
+  | StepToNative, InArr a => Some (InArr (if is_native a then a else astype_native a))
+  | StepToNative, _ => Some x
+  end.
+
+Definition arr_field (x : arrin) (f : ser_field) : option wire :=
+  match x, f with
+  | (InArr a | InJax a), FShape => Some (shape_wire (a_shape a))
+  | (InArr a | InJax a), FName => Some (WStr (dt_name (a_dt a)))
+  | (InArr a | InJax a), FBytesC => Some (WBin (tobytes_C a))
+  | InOther o, FShape => Some (shape_wire (o_shape o))
+  | InOther o, FName => Some (WStr (o_name o))
+  | InOther o, FBytesC => Some (WBin (o_raw o))
+  | _, _ => None
+  end.
+
+Definition run_steps (steps : list ntb_step) (x : arrin) : option arrin :=
+  fold_left (fun acc st => match acc with Some y => ntb_apply st y | None => None end) steps (Some x).
+
+(* _ndarray_to_bytes *)
+Definition ndarray_to_bytes_in (x : arrin) : option wire :=
+  match run_steps ndarray_to_bytes_steps x with
+  | Some y => option_map WArr (omap (arr_field y) ndarray_tuple_fields)
   | None => None
   end.
 
-Definition int_packable (z : Z) : bool := (- 2 ^ 63 <=? z) && (z <? 2 ^ 64).
+(* _bytes_ndarray_to_bytes on the flattened items *)
+Definition bytes_ndarray_to_bytes (shape : list nat) (elems : list objelem) : option wire :=
+  let flat := if bytes_ndarray_checks_every_element then omap obj_bytes elems
+              else match elems with ONotBytes :: _ => None | _ => Some (map (fun e => match e with OBytes b => WBin b | ONotBytes => WNil end) elems) end in
+  match flat with
+  | Some fl => option_map WArr (omap (fun f => match f with FShape => Some (shape_wire shape) | FFlat => Some (WArr fl) | _ => None end)
+                                     bytes_tuple_fields)
+  | None => None
+  end.
 
-(* msgpack.packb(pytree, default=_msgpack_ext_pack, strict_types=True); the order of
-   the isinstance tests in _msgpack_ext_pack is the order of the comments *)
+Definition test_holds (t : pack_test) (v : value) : bool :=
+  match t, v with
+  | TestNdarrayObject, VObj _ _ => true
+  | TestNdarrayOrJax, (VArr _ | VJax _ | VOther _ | VObj _ _) => true
+  | TestNpGeneric, (VNpScalar _ _ | VNpOther _) => true
+  | TestComplex, VComplex _ _ => true
+  | _, _ => false
+  end.
+
+Definition apply_enc (e : pack_enc) (v : value) : option wire :=
+  match e, v with
+  | EncBytesNdarray, VObj shape elems => bytes_ndarray_to_bytes shape elems
+  (* items of a non-object array are never bytes objects: only an empty one passes the check *)
+  | EncBytesNdarray, VOther o => if Nat.eqb (prod (o_shape o)) 0 then bytes_ndarray_to_bytes (o_shape o) [] else None
+  | EncBytesNdarray, (VArr a | VJax a) => if Nat.eqb (prod (a_shape a)) 0 then bytes_ndarray_to_bytes (a_shape a) [] else None
+  | EncNdarray, VArr a => ndarray_to_bytes_in (InArr a)
+  | EncNdarray, VJax a => ndarray_to_bytes_in (InJax a)
+  | EncNdarray, VOther o => ndarray_to_bytes_in (InOther o)
+  | EncNdarray, VObj _ _ => ndarray_to_bytes_in InObj
+  | EncNdarrayOfAsarray, VNpScalar d bits => ndarray_to_bytes_in (InArr (mk_carr d [] [bits]))
+  | EncNdarrayOfAsarray, VNpOther o => ndarray_to_bytes_in (InOther o)
+  | EncComplexTuple, VComplex re im => Some (WArr [WF64 re; WF64 im])
+  | _, _ => None
+  end.
+
+(* msgpack's `default=` hook: the first branch of _msgpack_ext_pack whose test holds; when none
+   does, x is returned unchanged and msgpack raises TypeError *)
+Definition ext_pack (v : value) : option wire :=
+  match find (fun b => test_holds (fst (fst b)) v) pack_dispatch with
+  | Some (_, code, enc) => option_map (WExt code) (apply_enc enc v)
+  | None => None
+  end.
+
+(* msgpack.packb(pytree, default=_msgpack_ext_pack, strict_types=True) *)
 Fixpoint encode (v : value) : option wire :=
   match v with
   | VDict ks vs => if Nat.eqb (length ks) (length vs) then option_map (WMap ks) (omap encode vs) else None
@@ -206,38 +276,44 @@ Fixpoint encode (v : value) : option wire :=
   | VInt z => if int_packable z then Some (WInt z) else None          (* OverflowError *)
   | VFloat b => Some (WF64 b) | VBool b => Some (WBool b) | VNone => Some WNil
   | VStr s => Some (WStr s) | VBytes s => Some (WBin s)
-  (* 1. ndarray with dtype == object -> bytes_ndarray *)
-  | VObj shape elems => option_map (WExt EXT_bytes_ndarray) (bytes_ndarray_to_bytes shape elems)
-  (* 2. any other ndarray / jax.Array -> ndarray (structured dtypes with an object field or
-        aligned fields are refused by _ndarray_to_bytes) *)
-  | VOther o => option_map (WExt EXT_ndarray) (other_to_bytes o)
-  | VArr a => Some (WExt EXT_ndarray (ndarray_to_bytes a))
-  | VJax a => Some (WExt EXT_ndarray (ndarray_to_bytes (astype_native a)))   (* np.array(arr) *)
-  (* 3. np.generic -> npscalar, packed as a 0-d array *)
-  | VNpScalar d bits => Some (WExt EXT_npscalar (ndarray_to_bytes (mk_carr d [] [bits])))
-  | VNpOther o => option_map (WExt EXT_npscalar) (other_to_bytes o)
-  (* 4. complex -> native_complex *)
-  | VComplex re im => Some (WExt EXT_native_complex (WArr [WF64 re; WF64 im]))
-  (* fall through: returned unchanged, msgpack raises TypeError *)
-  | VTuple _ | VSet | VForeign => None
+  (* without strict_types msgpack would pack a tuple as an array *)
+  | VTuple vs => if serialize_strict_types then ext_pack v else option_map WArr (omap encode vs)
+  | _ => ext_pack v
   end.
 
 Definition wire_nat (w : wire) : option nat :=
   match w with WInt z => if 0 <=? z then Some (Z.to_nat z) else None | _ => None end.
 
-(* _ndarray_from_bytes: np.frombuffer(buffer, dtype=_dtype_from_name(name)).reshape(shape) *)
+(* a, b, c = msgpack.unpackb(data, raw=True): positional binding of the tuple to the
+   translated field roles; a length mismatch raises *)
+Fixpoint field_of (names : list ser_field) (vals : list wire) (f : ser_field) : option wire :=
+  match names, vals with
+  | n :: nr, v :: vr =>
+      let same := match n, f with FShape, FShape | FName, FName | FBytesC, FBytesC | FFlat, FFlat => true | _, _ => false end in
+      if same then Some v else field_of nr vr f
+  | _, _ => None
+  end.
+
+(* _ndarray_from_bytes: np.frombuffer(buffer, dtype=_dtype_from_name(name)).reshape(shape, order='C') *)
 Definition ndarray_from_bytes (p : wire) : option ndarr :=
   match p with
-  | WArr [WArr sh; WStr name; WBin buf] =>
-      match omap wire_nat sh, dtype_of_name name with
-      | Some shape, Some d =>
-          let w := dt_width d in
-          if Nat.eqb (Nat.modulo (length buf) w) 0 then
-            let els := map le_val (chunks w buf) in
-            if Nat.eqb (length els) (prod shape) then Some (mk_carr d shape els) else None
-          else None
-      | _, _ => None
-      end
+  | WArr vals =>
+      if Nat.eqb (length vals) (length ndarray_unpack_fields) then
+        match field_of ndarray_unpack_fields vals FShape, field_of ndarray_unpack_fields vals FName,
+              field_of ndarray_unpack_fields vals FBytesC with
+        | Some (WArr sh), Some (WStr name), Some (WBin buf) =>
+            match omap wire_nat sh, dtype_of_name name with
+            | Some shape, Some d =>
+                let w := dt_width d in
+                if Nat.eqb (Nat.modulo (length buf) w) 0 then
+                  let els := map le_val (chunks w buf) in
+                  if Nat.eqb (length els) (prod shape) then Some (mk_carr d shape els) else None
+                else None
+            | _, _ => None
+            end
+        | _, _, _ => None
+        end
+      else None
   | _ => None
   end.
 
@@ -246,29 +322,41 @@ Definition wire_bin (w : wire) : option objelem := match w with WBin b => Some (
 (* _object_ndarray_from_bytes *)
 Definition object_from_bytes (p : wire) : option value :=
   match p with
-  | WArr [WArr sh; WArr flat] =>
-      match omap wire_nat sh, omap wire_bin flat with
-      | Some shape, Some elems => if Nat.eqb (length elems) (prod shape) then Some (VObj shape elems) else None
-      | _, _ => None
-      end
+  | WArr vals =>
+      if Nat.eqb (length vals) (length bytes_unpack_fields) then
+        match field_of bytes_unpack_fields vals FShape, field_of bytes_unpack_fields vals FFlat with
+        | Some (WArr sh), Some (WArr flat) =>
+            match omap wire_nat sh, omap wire_bin flat with
+            | Some shape, Some elems => if Nat.eqb (length elems) (prod shape) then Some (VObj shape elems) else None
+            | _, _ => None
+            end
+        | _, _ => None
+        end
+      else None
   | _ => None
+  end.
+
+Definition apply_dec (d : unpack_dec) (p : wire) : option value :=
+  match d with
+  | DecNdarray => option_map VArr (ndarray_from_bytes p)
+  | DecComplex => match p with WArr [WF64 re; WF64 im] => Some (VComplex re im) | _ => None end
+  | DecScalarOfNdarray =>
+      match ndarray_from_bytes p with
+      | Some a => match a_shape a, a_buf a with
+                  | [], [b] => Some (VNpScalar (a_dt a) b)      (* ar[()] *)
+                  | _, _ => Some (VArr a)
+                  end
+      | None => None
+      end
+  | DecObjectNdarray => object_from_bytes p
   end.
 
 (* _msgpack_ext_unpack *)
 Definition ext_unpack (code : Z) (p : wire) : option value :=
-  if code =? EXT_ndarray then option_map VArr (ndarray_from_bytes p)
-  else if code =? EXT_native_complex then
-    match p with WArr [WF64 re; WF64 im] => Some (VComplex re im) | _ => None end
-  else if code =? EXT_npscalar then
-    match ndarray_from_bytes p with
-    | Some a => match a_shape a, a_buf a with
-                | [], [b] => Some (VNpScalar (a_dt a) b)      (* ar[()] *)
-                | _, _ => Some (VArr a)
-                end
-    | None => None
-    end
-  else if code =? EXT_bytes_ndarray then object_from_bytes p
-  else Some VForeign.
+  match find (fun b => fst b =? code) unpack_dispatch with
+  | Some (_, d) => apply_dec d p
+  | None => Some VForeign
+  end.
 
 (* msgpack.unpackb(encoded, ext_hook=_msgpack_ext_unpack, raw=False) *)
 Fixpoint decode (w : wire) : option value :=
@@ -379,7 +467,9 @@ Definition build_row (c : list Z * (list (list Z) * list value)) : option db_row
   | _, _ => None
   end.
 
-Definition db_build (cs : list (list Z * (list (list Z) * list value))) : option (list db_row) := omap build_row cs.
+(* the row layout / rowid order are what the translator recognised in sqlite_federated_data.py *)
+Definition db_build (cs : list (list Z * (list (list Z) * list value))) : option (list db_row) :=
+  if sqlite_row_is_id_blob_count && sqlite_reads_in_rowid_order then omap build_row cs else None.
 Definition db_ids (db : list db_row) : list (list Z) := map r_id db.
 Definition db_sizes (db : list db_row) : list (list Z * nat) := map (fun r => (r_id r, r_n r)) db.
 Definition db_clients (db : list db_row) : option (list (list Z * value)) :=
@@ -456,23 +546,48 @@ Fixpoint ck_ins (r s : Z) (d : list (Z * Z)) : list (Z * Z) :=
   | e :: t => if r <? fst e then (r, s) :: d else e :: ck_ins r s t
   end.
 
-(* save_checkpoint(root, state, round_num, keep): the file checkpoint_<round> is (over)written
-   through a temporary name + rename, then `_get_checkpoint_paths(base)[:-keep]` are removed *)
-Definition ck_save (d : list (Z * Z)) (r s keep : Z) : list (Z * Z) :=
-  let d1 := ck_ins r s (filter (fun e => negb (fst e =? r)) d) in
-  let n := Z.of_nat (length d1) in
+Definition ck_put (d : list (Z * Z)) (r s : Z) : list (Z * Z) :=
+  ck_ins r s (filter (fun e => negb (fst e =? r)) d).
+
+Definition ck_retain (d : list (Z * Z)) (keep : Z) : list (Z * Z) :=
+  let n := Z.of_nat (length d) in
   let removed := if 0 <? keep then Z.max 0 (n - keep) else if keep =? 0 then 0 else Z.min n (- keep) in
-  skipn (Z.to_nat removed) d1.
+  skipn (Z.to_nat removed) d.
+
+(* one file-system effect of save_checkpoint on (checkpoint files, content of the .tmp file);
+   None = the call raises *)
+Definition ck_effect_apply (r s keep : Z) (e : ck_effect) (st : list (Z * Z) * option Z) : option (list (Z * Z) * option Z) :=
+  let '(d, tmp) := st in
+  match e with
+  | EffSaveState PTmp => Some (d, Some s)
+  | EffSaveState PFinal => Some (ck_put d r s, tmp)
+  | EffRename PTmp PFinal ov =>
+      match tmp with
+      | Some c => if existsb (fun e => fst e =? r) d && negb ov then None else Some (ck_put d r c, None)
+      | None => None
+      end
+  | EffRename _ _ _ => None
+  | EffRemoveAllButLastKeep => Some (ck_retain d keep, tmp)
+  end.
+
+(* save_checkpoint(root, state, round_num, keep): the TRANSLATED effect sequence
+   (gen/Gen_c16_checkpoint.v); a left-over .tmp file is not a checkpoint *)
+Definition ck_save (d : list (Z * Z)) (r s keep : Z) : option (list (Z * Z)) :=
+  match fold_left (fun acc e => match acc with Some st => ck_effect_apply r s keep e st | None => None end)
+                  save_checkpoint_effects (Some (d, None)) with
+  | Some (d', _) => Some d'
+  | None => None
+  end.
 
 (* load_latest_checkpoint: the highest round present, None when there is none *)
 Definition ck_load (d : list (Z * Z)) : option (Z * Z) :=
   match d with [] => None | _ => Some (last d (0, 0)) end.
 
-Fixpoint ck_run (ops : list ck_op) (d : list (Z * Z)) : list (option (Z * Z)) :=
+Fixpoint ck_run (ops : list ck_op) (d : list (Z * Z)) : option (list (option (Z * Z))) :=
   match ops with
-  | [] => []
-  | CkSave r s k :: t => ck_run t (ck_save d r s k)
-  | CkLoad :: t => ck_load d :: ck_run t d
+  | [] => Some []
+  | CkSave r s k :: t => match ck_save d r s k with Some d' => ck_run t d' | None => None end
+  | CkLoad :: t => option_map (cons (ck_load d)) (ck_run t d)
   end.
 
 (* ---------- correspondence ---------- *)
@@ -504,7 +619,7 @@ Definition ozz_eqb (a b : option (Z * Z)) : bool :=
 
 Definition C16_agree (c : C16_case) (o : C16_obs) : bool :=
   match c with
-  | CCkpt ops => match o with OCkpt loads => list_beq ozz_eqb (ck_run ops []) loads | _ => false end
+  | CCkpt ops => match o, ck_run ops [] with OCkpt loads, Some m => list_beq ozz_eqb m loads | _, _ => false end
   | CValue c =>
       wf c &&
       match o, encode c with
